@@ -25,11 +25,9 @@ def Match.Of (m : Match) (p : Pat) : Prop :=
 
 theorem Match.str_of_group {m : Match} {i : Nat} {g : Str} (site : String) (s : Session)
     (hi : i ≤ m.ngroups) (hg : m.res.group m.inp i = some g) : (m.str i site).run s = .ok (g, s) := by
-  unfold Match.str Match.opt
+  unfold Match.str
   have : ¬ (i > m.ngroups) := by omega
-  simp only [this, if_false]
-  rw [run_bind, run_pure]
-  simp only [hg]
+  simp only [this, if_false, hg]
   rfl
 
 /-- **`match[i]` is a string** when the pattern sets group `i`. -/
